@@ -172,16 +172,15 @@ def rule_messages(eng, rep):
             for (b, at) in gs:
                 if at.op != "le":
                     continue
-                lhs_calls = [c for c in ast.walk(at.lhs) if isinstance(c, ast.Call)]
-                has_sumsq = any(any(t.fid == "util.sumsq" for t in eng.res.calls[id(c)].targets) for c in lhs_calls)
-                has_h = any(eng.res.calls[id(c)].role and "h" in eng.res.calls[id(c)].role.split("|") for c in lhs_calls)
-                tol_ok = _is_tolerance(eng, at.rhs)
-                if not has_sumsq or not tol_ok:
+                if not _is_tolerance(eng, at.rhs):
                     continue
                 # is h known to be None on this path?
                 h_none = any(a2.op == "is" and is_none(a2.rhs) and ekey(a2.lhs) in ("h", "self.h") for (_b2, a2) in gs)
-                if not h_none and not has_h:
-                    why = "the tested value omits the regulariser h although h may be set on this path"
+                verdict = _objective_forms_ok(eng, cfg, b, at.lhs, h_none)
+                if verdict is None:
+                    continue          # not an objective value at all
+                if verdict is not True:
+                    why = verdict
                     continue
                 # the tested residual is the mean over the samples run (or a plain residual)
                 okc = True
@@ -247,6 +246,93 @@ def rule_messages(eng, rep):
             rep.bad(rule, eng.where(mo), "model.Model.min_objective_value|tolerance-origin", "abs_tol / objbeg do not originate from params('model.abs_tol') / objval[0] (got %s)" % sorted(keys))
     else:
         rep.bad(rule, eng.where(mo), "model.Model.min_objective_value|tolerance-shape", "min_objective_value is not max(abs_tol, rel_tol * objbeg)")
+
+
+def _h_none_edge(cfg, a, e):
+    """the edge asserts that the regulariser is None"""
+    if cfg.kind(a) != "cond" or e.get("label") not in (True, False):
+        return False
+    at = atom_of(cfg.ast_of(a), e["label"])
+    return at.op == "is" and is_none(at.rhs) and ekey(at.lhs) in ("h", "self.h")
+
+
+def _objective_forms_ok(eng, cfg, cond, expr, h_none_here, depth=4):
+    """The value tested against the tolerance must be sumsq(residual) + h(point) whenever h may be set.  The value may be written in place
+    (`sumsq(..) + self.h(..) <= tol`) or accumulated in a local (`v = sumsq(..)`; `if self.h is not None: v = v + self.h(..)` / `v += ..`): every
+    definition reaching the test is expanded, and a definition without the h term must be unable to reach the test on a path where h is set.
+    Returns True, a reason (str), or None if the value is no objective at all."""
+    def calls(e):
+        return [c for c in ast.walk(e) if isinstance(c, ast.Call) and id(c) in eng.res.calls]
+
+    def has_sumsq(e):
+        return any(any(t.fid == "util.sumsq" for t in eng.res.calls[id(c)].targets) for c in calls(e))
+
+    def has_h(e):
+        return any(eng.res.calls[id(c)].role and "h" in eng.res.calls[id(c)].role.split("|") for c in calls(e))
+
+    def forms(e, at_ast, d):
+        """set of (has_sumsq, has_h, defining cfg node or None)"""
+        if isinstance(e, ast.Name) and d > 0:
+            out = set()
+            try:
+                defs = cfg.defs_reaching(at_ast, e.id)
+            except Exception:
+                defs = []
+            for dn in defs:
+                st = cfg.ast_of(dn)
+                if isinstance(st, ast.Assign) and len(st.targets) == 1 and isinstance(st.targets[0], ast.Name):
+                    for (s_, h_, _n) in forms_of_expr(st.value, st, d - 1):
+                        out.add((s_, h_, dn))
+                elif isinstance(st, ast.AugAssign) and isinstance(st.op, ast.Add) and isinstance(st.target, ast.Name):
+                    prev = _prev_forms(e.id, dn, d - 1)
+                    for (s_, h_, _n) in prev:
+                        out.add((s_ or has_sumsq(st.value), h_ or has_h(st.value), dn))
+                else:
+                    out.add((False, False, dn))
+            return out
+        return forms_of_expr(e, at_ast, d)
+
+    def _prev_forms(var, dn, d):
+        out = set()
+        for (v, p) in cfg.reaching_defs()[dn]:
+            if v != var:
+                continue
+            st = cfg.ast_of(p)
+            if isinstance(st, ast.Assign) and len(st.targets) == 1 and isinstance(st.targets[0], ast.Name):
+                out |= forms_of_expr(st.value, st, d)
+            else:
+                out.add((False, False, p))
+        return out or {(False, False, None)}
+
+    def forms_of_expr(e, at_ast, d):
+        s_, h_ = has_sumsq(e), has_h(e)
+        names = [n for n in ast.walk(e) if isinstance(n, ast.Name) and isinstance(n.ctx, ast.Load)]
+        out = {(s_, h_, None)}
+        if d > 0:
+            for nm in names:
+                # a term that is itself an accumulator local
+                if isinstance(e, ast.BinOp) and isinstance(e.op, ast.Add) and nm in (e.left, e.right):
+                    sub = forms(nm, at_ast, d)
+                    out = set((s_ or s2, h_ or h2, None) for (s2, h2, _n) in sub)
+        return out
+
+    fs = forms(expr, cfg.ast_of(cond), depth)
+    if not any(s_ for (s_, _h, _n) in fs):
+        return None
+    for (s_, h_, dn) in fs:
+        if not s_:
+            return "a value that is not sumsq(residual)[+h] can reach this test"
+        if h_ or h_none_here:
+            continue
+        if dn is None:
+            return "the tested value omits the regulariser h although h may be set on this path"
+        # the h-less definition must not reach the test on a path where h may be set
+        var = expr.id if isinstance(expr, ast.Name) else None
+        redefs = [n for n in cfg.g.nodes if n != dn and var is not None and var in cfg.defs_of(n)[0]]
+        p = cfg.path_avoiding(dn, cond, redefs, edge_ok=lambda a, m, e: not _h_none_edge(cfg, a, e))
+        if p is not None:
+            return "the tested value omits the regulariser h although h may be set on this path"
+    return True
 
 
 def _prev_call(cfg, node):
